@@ -57,12 +57,20 @@ func (l *EventsLoader) LoadAndVerify(ctx context.Context, rawEvents []json.RawMe
 	// 3. Passes hash checks, otherwise it is redacted before being processed further.
 	events := make([]PDU, 0, len(rawEvents))
 	errs := make([]error, 0, len(rawEvents))
+	seen := make(map[string]struct{}, len(rawEvents))
 	for _, rawEv := range rawEvents {
 		event, err := verImpl.NewEventFromUntrustedJSON(rawEv)
 		if err != nil {
 			errs = append(errs, err)
 			continue
 		}
+		// The ordering below returns every distinct event once: report a repeated
+		// PDU as an error so that every input still gets a result.
+		if _, dup := seen[event.EventID()]; dup {
+			errs = append(errs, fmt.Errorf("gomatrixserverlib: duplicate event %s", event.EventID()))
+			continue
+		}
+		seen[event.EventID()] = struct{}{}
 		events = append(events, event)
 	}
 
